@@ -254,6 +254,27 @@ def split_base_offset(a):
     return a, ZERO
 
 
+def dim_field_alias(v):
+    """(record, field) -> (parameter record, field) for dimension fields a constructor copies from a parameter object it is given
+    (`TLweSample::k` initialised with `params->k`): the object's own copy of that dimension"""
+    tab = getattr(v, "_dim_field_alias", None)
+    if tab is not None:
+        return tab
+    tab = {}
+    for c in v.defined():
+        if c.get("kind") != "ctor" or c.get("implicit") or c.get("copy") or not c.get("record"):
+            continue
+        for ini in c.d.get("inits") or []:
+            e = ini.get("e")
+            while isinstance(e, dict) and e.get("k") in ("cast", "paren"):
+                e = e.get("a")
+            if ini.get("field") and isinstance(e, dict) and e.get("k") == "member" and e.get("record") and isinstance(e.get("a"), dict) \
+                    and e["a"].get("k") == "ref" and e["a"].get("rk") == "param" and "int" in (e.get("t") or ""):
+                tab[(c.get("record"), ini["field"])] = (e["record"], e["field"])
+    v._dim_field_alias = tab
+    return tab
+
+
 # ------------------------------------------------------------------------------ constructor relations
 def ctor_relations(v):
     """(record, field) -> expression over this-> fields, read from the single user constructor"""
